@@ -12,6 +12,9 @@ pub open spec fn grouped_by_file(m: Map<FileId, Vec<Diagnostic>>) -> bool {
 pub open spec fn reports(m: Map<FileId, Vec<Diagnostic>>, f: FileId, r: TextRange) -> bool {
     m.contains_key(f) && exists|i: int| 0 <= i < m[f]@.len() && (#[trigger] m[f]@[i]).location.range == r && m[f]@[i].location.file == f
 }
+/// every stored vector is empty / the first n files of a list have an entry
+pub open spec fn all_empty(m: Map<FileId, Vec<Diagnostic>>) -> bool { forall|k: FileId| m.contains_key(k) ==> (#[trigger] m[k])@.len() == 0 }
+pub open spec fn has_keys(m: Map<FileId, Vec<Diagnostic>>, fs: Seq<FileId>, n: int) -> bool { forall|j: int| 0 <= j < n && j < fs.len() ==> m.contains_key(#[trigger] fs[j]) }
 /// a list holds a diagnostic at (file, range)
 pub open spec fn lists(l: Seq<Diagnostic>, f: FileId, r: TextRange) -> bool {
     exists|k: int| 0 <= k < l.len() && (#[trigger] l[k]).location.file == f && l[k].location.range == r
